@@ -1,25 +1,12 @@
-import KaVerif.Driver.Arith
+import KaVerif.Driver.All
 /-
   Line-protocol driver: one request per line `<stream> <payload>`, one answer per line.
   Run with `lake env lean --run Main.lean`.
 -/
-open KaVerif
-
-def step (line : String) : String :=
-  let line := line.trimAscii.toString
-  let (stream, payload) :=
-    match line.splitOn " " with
-    | s :: rest => (s, " ".intercalate rest)
-    | [] => ("", "")
-  match stream with
-  | "aexp" => Driver.handleAExp payload
-  | "ping" => "pong"
-  | _ => "bad-stream"
-
 partial def loop (h : IO.FS.Stream) (out : IO.FS.Stream) : IO Unit := do
   let line ← h.getLine
   if line.isEmpty then return ()
-  out.putStrLn (step line)
+  out.putStrLn (KaVerif.Driver.step line)
   loop h out
 
 def main : IO Unit := do
